@@ -1511,3 +1511,239 @@ def flen_outcomes(ex, outs):
 FUNCS['_function.__len__'] = {
     'setup': flen_setup, 'scenarios': {'any': {}},
     'on_outcomes': flen_outcomes, 'config': {'unroll': 8}}
+
+
+# ------------------------------------------------------- _function.value()
+# f.value() = constant + linear.value() + sum_k convex_k.value()
+#             + sum_k concave_k.value()     (a length-1 summand broadcast),
+# and None as soon as one part has no value (a variable without a value).
+# The values of the parts are taken from their own value() methods (matrix
+# arithmetic, not decided here); this contract is about the accumulation:
+# ghost prefix sums PV(k+1, i) = PV(k, i') + g_k(i''), the loops over the term
+# lists of symbolic length by the invariant rule with early return.
+PVG = z3.Function('PV_convex', IS, IS, RS)
+PVH = z3.Function('PV_concave', IS, IS, RS)
+
+
+class Val:
+    """a column matrix: length and entries (or the value None)"""
+    abs_object = True
+
+    def __init__(self, ln, val):
+        self.ln, self.val = ln, val
+
+    def abs_binop(self, ex, st, op, b, n):
+        if isinstance(b, MaybeVal):
+            if ex.decide(st, z3.Not(b.none)) is not True:
+                raise PyRaise('TypeError', 'matrix + None')
+            b = b.v
+        if isinstance(op, ast.Add) and isinstance(b, Val):
+            l1, l2, f1, f2 = self.ln, b.ln, self.val, b.val
+            ok = z3.Or(l1 == l2, l1 == 1, l2 == 1)
+            if ex.decide(st, ok) is not True:
+                raise Unsupported('sum of matrices whose sizes are not '
+                                  'provably compatible')
+            return Val(z3.If(l1 == 1, l2, l1), lambda i: f1(z3.If(
+                l1 == 1, Z(0), i)) + f2(z3.If(l2 == 1, Z(0), i)))
+        raise Unsupported('operation on a value')
+
+    def abs_is(self, ex, st, o):
+        if o is None:
+            return False
+        raise Unsupported('identity test of a value')
+
+
+class MaybeVal:
+    """what part.value() returns: None (flag) or a column matrix"""
+    abs_object = True
+
+    def __init__(self, none, v):
+        self.none, self.v = none, v
+
+    def abs_is(self, ex, st, o):
+        if o is None:
+            return self.none
+        raise Unsupported('identity test of a value')
+
+    def abs_binop(self, ex, st, op, b, n):
+        raise Unsupported('a value that may be None is used in arithmetic')
+
+    def abs_rbinop(self, ex, st, op, a, n):
+        if ex.decide(st, z3.Not(self.none)) is True and isinstance(a, Val):
+            return a.abs_binop(ex, st, op, self.v, n)
+        raise Unsupported('a value that may be None is used in arithmetic')
+
+
+class ValPart:
+    abs_object = True
+
+    def __init__(self, mv, coeff=None):
+        self.mv, self.coeff = mv, coeff
+
+    def abs_method(self, ex, st, name, args, kwargs, n):
+        if name == 'value' and not args:
+            return self.mv
+        raise Unsupported('method %s of a part' % name)
+
+    def abs_getattr(self, ex, st, attr, n):
+        if attr == '_coeff' and self.coeff is not None:
+            class T:
+                abs_object = True
+
+                def abs_truth(s_, ex_, st_):
+                    return self.coeff
+            return T()
+        return core.NOTFOUND
+
+
+class ValSeq:
+    abs_object = True
+
+    def __init__(self, name, n, none, tl, g, PV, Lg):
+        self.name, self.n, self.none, self.tl, self.g = name, n, none, tl, g
+        self.PV, self.Lg = PV, Lg
+
+    def abs_loop(self, ex, st, s, fid):
+        k = z3.Int(ex.fresh('k'))
+        i = z3.Int('i')
+        fr = st.frames[fid]
+        cur = fr.get('val')
+        if not isinstance(cur, Val):
+            raise Unsupported('the accumulator is not a value')
+        base = cur
+        sink = st.ghost['sink']
+        PV, tl, g = self.PV, self.tl, self.g
+        b = st.copy()
+        bl = lambda ln, f, q: f(z3.If(ln == 1, Z(0), q))
+        b.pc += [k >= 0, k < self.n, z3.Or(tl(k) == 1, tl(k) == self.Lg),
+                 z3.ForAll([i], PV(0, i) == 0),
+                 z3.ForAll([i], PV(k + 1, i) == PV(k, i) + bl(
+                     tl(k), lambda q: g(k, q), i))]
+        L_ = self.Lg
+        # at the head of iteration k: val = base + PV(k) (broadcast to L)
+        b.frames[fid]['val'] = Val(L_, lambda q: bl(base.ln, base.val, q) +
+                                   PV(k, q))
+        el = ValPart(MaybeVal(self.none(k), Val(tl(k), lambda q: g(k, q))))
+        ex.assign(b, fid, s.target, el, s)
+        outs = []
+        for o in ex.exec_block(s.body, b, fid):
+            if o.kind in ('fall', 'continue'):
+                v = o.st.frames[fid].get('val')
+                okv = isinstance(v, Val)
+                n0 = list(o.st.pc) + [i >= 0, i < L_]
+                sink.append(('value-accumulates', n0, z3.And(
+                    z3.Not(self.none(k)),
+                    bl(v.ln, v.val, i) == bl(base.ln, base.val, i) +
+                    PV(k + 1, i)) if okv else z3.BoolVal(False),
+                    'one pass over %s adds the value of term k to the '
+                    'accumulator (a length-1 value broadcast) and goes on '
+                    'only if that value is not None' % self.name, s.lineno))
+            elif o.kind == 'return':
+                sink.append(('value-none', list(o.st.pc), z3.And(
+                    z3.BoolVal(o.val is None), self.none(k)),
+                    'value() returns from inside the loop over %s only with '
+                    'None, when the value of the current term is None' %
+                    self.name, s.lineno))
+            else:
+                raise Unsupported('exit %s from the loop over %s' % (
+                    o.kind, self.name))
+        e = st.copy()
+        N = self.n
+        e.pc += [z3.ForAll([i], PV(0, i) == 0), N >= 0]
+        # after the loop: every term had a value
+        e.frames[fid]['val'] = Val(z3.If(N == 0, base.ln, L_), lambda q: bl(
+            base.ln, base.val, q) + PV(N, q))
+        e.ghost['all_have_values'] = e.ghost.get('all_have_values', ()) + (
+            self,)
+        return [Outcome('fall', e)]
+
+
+def value_obligations(timeout_ms=10000):
+    tree, src = driver.load_module('modeling.py')
+    obs, sink = [], []
+
+    def add(oid, kind, status, text, line=0, detail=None):
+        obs.append({'id': 'modeling.py:_function.value:%s:%s' % (kind, oid),
+                    'kind': kind, 'status': status, 'text': text,
+                    'line': line, 'model': None, 'detail': detail,
+                    'by': ['z3'] if status == 'proved' else []})
+    ex = core.Executor(tree, 'cvxopt.modeling', L, {'unroll': 8})
+    i = z3.Int('i')
+    Lg = z3.Int('len(f)')
+    lc, ll = z3.Int('len(constant)'), z3.Int('len(linear value)')
+    cf, lf = z3.Function('c', IS, RS), z3.Function('lin', IS, RS)
+    lnone = z3.Bool('the linear part has no value')
+    haslin = z3.Bool('the linear part has variables')
+    seqs = {}
+    for nm, PV in (('_cvxterms', PVG), ('_ccvterms', PVH)):
+        seqs[nm] = ValSeq(nm, z3.Int('number of ' + nm),
+                          z3.Function('no value: ' + nm, IS, z3.BoolSort()),
+                          z3.Function('len of value: ' + nm, IS, IS),
+                          z3.Function('value of ' + nm, IS, IS, RS), PV, Lg)
+
+    def setup(ex_, st, fid, f_):
+        install()
+        fr = st.frames[fid]
+        st.pc += [Lg >= 1, z3.Or(lc == 1, lc == Lg), z3.Or(ll == 1,
+                                                           ll == Lg),
+                  seqs['_cvxterms'].n >= 0, seqs['_ccvterms'].n >= 0]
+        fr['self'] = FArg(Lg, {
+            '_constant': Val(lc, lambda q: cf(q)),
+            '_linear': ValPart(MaybeVal(lnone, Val(ll, lambda q: lf(q))),
+                               coeff=haslin),
+            '_cvxterms': seqs['_cvxterms'], '_ccvterms': seqs['_ccvterms']})
+        st.ghost.update({'sink': sink, 'frame_check': False})
+    ex.find_function('_function.value')
+    try:
+        outs = ex.run_function('_function.value', setup)
+    except Unsupported as e:
+        add('supported', 'value-accumulates', 'undecided', '_function.value '
+            'is inside the supported subset', detail=str(e))
+        return obs
+    bl = lambda ln, f, q: f(z3.If(ln == 1, Z(0), q))
+    nret = 0
+    for o in outs:
+        st = o.st
+        if o.kind != 'return':
+            sink.append(('value-formula', list(st.pc), z3.BoolVal(False),
+                         'value() raises no exception (%s)' % (
+                             o.val[0] if o.kind == 'raise' else o.kind,), 0))
+            continue
+        if o.val is None:
+            sink.append(('value-none', list(st.pc), z3.And(haslin, lnone),
+                         'outside the loops value() returns None only when '
+                         'the linear part has no value', 0))
+            continue
+        nret += 1
+        v = o.val
+        ng, nh = seqs['_cvxterms'].n, seqs['_ccvterms'].n
+        want = lambda q: bl(lc, cf, q) + z3.If(haslin, bl(ll, lf, q), 0) + \
+            PVG(ng, q) + PVH(nh, q)
+        done = st.ghost.get('all_have_values', ())
+        sink.append(('value-formula', list(st.pc) + [i >= 0, i < Lg], z3.And(
+            z3.BoolVal(isinstance(v, Val) and len(done) == 2 and
+                       done[0] is seqs['_cvxterms'] and
+                       done[1] is seqs['_ccvterms']),
+            z3.Not(z3.And(haslin, lnone)),
+            bl(v.ln, v.val, i) == want(i)) if isinstance(v, Val) else
+            z3.BoolVal(False),
+            'value() is constant + value of the linear part + the sum of '
+            'the values of all convex and all concave terms, entry by entry '
+            '(length-1 summands broadcast), after every part was found to '
+            'have a value', 0))
+    sink.append(('covered', [], z3.BoolVal(nret >= 2), 'value() returns a '
+                 'value with and without a linear part (%d)' % nret, 0))
+    seen = {}
+    rank = {'proved': 0, 'undecided': 1, 'refuted': 2}
+    for kind, pc, goal, text, line in sink:
+        r = ex.check(pc, [z3.Not(goal)], timeout=timeout_ms)
+        st_ = 'proved' if r == z3.unsat else ('refuted' if r == z3.sat
+                                              else 'undecided')
+        if kind == 'covered' and st_ != 'proved':
+            st_ = 'undecided'
+        key = (kind, text)
+        if key not in seen or rank[st_] > rank[seen[key][0]]:
+            seen[key] = (st_, line)
+    for i_, ((kind, text), (st_, line)) in enumerate(sorted(seen.items())):
+        add('%s#%d' % (kind, i_), kind, st_, text, line)
+    return obs
